@@ -212,7 +212,8 @@ def judge_opt(ck, jobs, res, stats):
       ck.count(1, key=[j["impl"], "opt", list(j["shape"]), _key(b)])
       for k, v in x["worst"].items():
         if not j["mixed"]:
-          ck.calib(f"{j['impl']}.opt.{k}", v, 1e-4 if k == "orth" else 0.0 if k == "nonneg" else j["tol"])
+          ck.calib(f"{j['impl']}.opt.{k}", v, 1e-4 if k == "orth" else 0.0 if k == "nonneg" else
+                   1e-3 if k == "update_direction" else j["tol"])
       strict = [y for y in x["bad"] if not (j["mixed"] and y[1] in small)]
       known = [y for y in x["bad"] if j["mixed"] and y[1] in small]
       if known:
